@@ -139,8 +139,10 @@ def summarise_loop(ip, pc, rec, exits, safety=()):
     if by_test:
         base = set(rec['snapshot'].pc)
         alts = []
+        flag = flag_of(ip, rec)
+        notf = T.mk_not(flag[0]) if flag is not None else None
         for bst, cur in rec['backs']:
-            d = closed([f for f in bst.pc if f not in base], bst.safety)
+            d = closed([f for f in bst.pc if f not in base and f != notf], bst.safety)
             if d is None:
                 return None
             alts.append(T.conj(d))
@@ -200,7 +202,80 @@ def loop_frame(ip, rec, exits):
     return P, dom, e0, counters, K, sigma, (sw is not None and ex[-1][2] == sw), end
 
 
-def closed_values(ip, rec, exits):
+def flag_of(ip, rec, frame=None):
+    """(F, b(K)) for a scan that stops on a flag - `while i < n && !found { found = b(i); i += 1 }` -, or None:
+    a boolean carried by the loop, false on entry, whose every way round the loop starts with the flag still false and
+    ends with it set to a value b(position) that mentions nothing else the loop carries.  By induction on the position
+    i at the head:  F <=> (i > e0 and b(i-1)), and b is false at every position before i-1;  so wherever the loop is
+    left by its bound (i >= B) or by the flag (F true),  F <=> any(range(e0, B), k, b(k))."""
+    fr = frame
+    if fr is None:
+        ld = loop_domain(ip, rec)
+        if ld is None or not rec['backs']:
+            return None
+        P, dom, e0, end = ld
+        counters = {hv: ev for hv, ev in rec['mapping'] if hv[0] == 'var' and T.TYPES.get(hv) in ('usize', 'u32', 'u64', 'i32', 'isize') and is_counter(ip, rec, hv)}
+        K = T.var('k#L%d_%d' % (rec['head'], rec['inst']), 'usize')
+        sigma = {c: (K if c == P else T.mk_add(ev, T.mk_sub(K, e0))) for c, ev in counters.items()}
+    else:
+        P, dom, e0, counters, K, sigma = fr
+    if dom[0] != 'range':
+        return None
+    hi = (rec['head'], rec['inst'])
+    for hv, ev in rec['mapping']:
+        if hv[0] != 'var' or T.TYPES.get(hv) != 'bool' or ev != T.FALSE:
+            continue
+        body = None
+        for bst, cur in rec['backs']:
+            c = cur.get(hv)
+            if T.mk_not(hv) not in bst.pcset or not isinstance(c, tuple):
+                body = None
+                break
+            b = T.subst(c, sigma)
+            if hi in insts_of(b) or (body is not None and b != body):
+                body = None
+                break
+            body = b
+        if body is not None:
+            return hv, quant('any', dom, K, body)
+    return None
+
+
+def flag_exit(ip, rec, exits, F, pc):
+    """the loop was left by the second half of its test  `.. && !F`: from a switch reached from the loop's first test
+    through blocks that only copy into temporaries, on a path that knows F to be true"""
+    ex = [e for e in exits if e[0] == rec['fn'] and e[1] == rec['head']]
+    fn = ip.crate.fn(rec['fn']) or rec.get('fnobj')
+    if not ex or fn is None or pc is None or F not in set(pc):
+        return False
+    src = ex[-1][2]
+    chain, callees, sw = fn.loop_test(rec['head'])
+    if sw is None or src is None or src == sw:
+        return False
+    body = fn.loops().get(rec['head'], set())
+    cur, seen = None, set()
+    nxt = [b for b in fn.succ[sw] if b in body]
+    if len(nxt) != 1:
+        return False
+    cur = nxt[0]
+    while cur not in seen:
+        seen.add(cur)
+        blk = fn.blocks[cur]
+        for st_ in blk['stmts']:
+            if st_[0] == 'assign' and (st_[1]['p'] or fn.locals[st_[1]['l']].get('name')):
+                return False
+            if st_[0] not in ('assign', 'storage_live', 'storage_dead', 'nop', 'live', 'dead'):
+                return False
+        t = blk['term']
+        if cur == src:
+            return t[0] == 'switch'
+        if t[0] != 'goto':
+            return False
+        cur = t[1]
+    return False
+
+
+def closed_values(ip, rec, exits, pc=None):
     """closed terms for the loop-carried objects of an exhausted loop:
        vector V with  V' = V ++ [t(k)]  on every back edge, V = [] (or any list) on entry      ->  entry ++ map(dom, k, t(k))
        vector V with  V'[k] = t(k)  (k the position, V of the domain's length on entry)         ->  map(dom, k, t(k))
@@ -216,12 +291,17 @@ def closed_values(ip, rec, exits):
     if fr is None:
         return {}
     P, dom, e0, counters, K, sigma, by_test, end = fr
+    flag = flag_of(ip, rec, (P, dom, e0, counters, K, sigma))
     if not by_test:
+        if flag is not None and flag_exit(ip, rec, exits, flag[0], pc):
+            return {flag[0]: (flag[1], None)}
         return {}
     if not rec['backs']:
         return {}
     hi = (rec['head'], rec['inst'])
     out = {}
+    if flag is not None:
+        out[flag[0]] = (flag[1], None)
     n_dom = T.mk_sub(end, e0)
     # element-wise definitions number the elements from 0 (the convention of the `collect` summary): position = e0 + k
     sigma_abs = sigma
@@ -447,7 +527,7 @@ def summarise(ip, o):
         if rec is None:
             continue
         try:
-            cv = closed_values(ip, rec, st.loop_exits)
+            cv = closed_values(ip, rec, st.loop_exits, st.pc)
         except Exception:
             cv = {}
         pc2 = pc
@@ -545,7 +625,7 @@ def close_term(ip, st, t):
             if rec is None:
                 continue
             try:
-                cv = closed_values(ip, rec, st.loop_exits)
+                cv = closed_values(ip, rec, st.loop_exits, st.pc)
             except Exception:
                 cv = {}
             one = {V: c for V, (c, n) in cv.items()}
@@ -571,7 +651,7 @@ def summarise_facts(ip, st, skip=()):
         if rec is None or not any(e[0] == rec['fn'] and e[1] == rec['head'] for e in st.loop_exits):
             continue
         try:
-            cv = closed_values(ip, rec, st.loop_exits)
+            cv = closed_values(ip, rec, st.loop_exits, st.pc)
         except Exception:
             cv = {}
         pc2 = pc
